@@ -73,7 +73,10 @@ def _random_points_inside(main_domain, domain_a, domain_b, n, params, invert, de
             scaled_n = (
                 5 * scaled_n if number_valid == 0 else scaled_n**2 / number_valid + 1
             )
-        random_points = random_points | new_points[index_valid[:n],]
+        # the sampler of domain_a may emit its points part by part (polygons,
+        # unions): keep a random selection of the valid ones, not the first n
+        selection = torch.randperm(len(index_valid), device=index_valid.device)[:n]
+        random_points = random_points | new_points[index_valid[selection],]
     return random_points
 
 
